@@ -15,6 +15,7 @@
 // node:port); for C13 the same case is re-run with every NAT removed and the
 // two traces must be identical.
 #include "simkit/world.hpp"
+#include <set>
 
 using namespace kit;
 
@@ -58,14 +59,14 @@ struct Run
 	struct Cli
 	{
 		std::shared_ptr<Side> side; bool connecting = false; int result = -1; long long t_call = -1, t_done = -1;
-		tcp::endpoint dialled; bool expect_listener = false; int target_acc = -1; int target_gen = 0; int local_port = 0; bool called = false;
+		tcp::endpoint dialled; bool expect_listener = false; int target_acc = -1; int target_gen = 0; int local_port = 0; bool called = false; int attempt = 0; std::set<int> abandoned; // acceptors whose queue may still hold a SYN of a cancelled attempt
 		std::size_t pos_call = 0;
 	} cli[MAXC];
 	std::unique_ptr<tcp::socket> dummy; // bound, never listening
 	std::vector<std::unique_ptr<udp::socket>> udps; // one per node, port 5300
 	std::vector<std::vector<unsigned char>> udp_bufs; std::vector<std::unique_ptr<udp::endpoint>> udp_from;
 	std::map<int, int> port_node; // local port -> node (for canonical names)
-	bool saw_two_queued = false, saw_accept_after_syn = false, saw_nat = false, saw_refusal = false, saw_overload2 = false, saw_nat_synack = false, saw_shared_ext = false, saw_reaccept = false, saw_v6_beside_nat = false, saw_bound_not_listening = false, saw_double_nat_udp = false;
+	bool saw_two_queued = false, saw_accept_after_syn = false, saw_nat = false, saw_refusal = false, saw_overload2 = false, saw_nat_synack = false, saw_shared_ext = false, saw_reaccept = false, saw_v6_beside_nat = false, saw_bound_not_listening = false, saw_double_nat_udp = false, saw_cancel_reconnect = false;
 	void fail(std::string m) { if (err.empty()) err = std::move(m); }
 	void tr(std::string s) { trace.push_back(fmt("t=%lld ", now_ns()) + s); }
 
@@ -287,9 +288,19 @@ std::string run_world(Case const& c, Ctx& ctx, bool strip_nat, std::vector<std::
 						A2.accept_order.push_back({lgen, int(re.port())});
 						// which client is it? (ports are unique)
 						int who = -1;
-						for (int i = 0; i < MAXC; ++i) if (R.cli[i].called && R.cli[i].local_port == re.port()) who = i;
+						for (int i = 0; i < MAXC; ++i) if ((R.cli[i].called || !R.cli[i].abandoned.empty()) && R.cli[i].local_port == re.port()) who = i;
 						if (who < 0) { R.fail(fmt("acceptor %d accepted a connection from port %d which no client uses", a, re.port())); return; }
 						Run::Cli& C = R.cli[who];
+						if (C.target_acc != a && C.abandoned.count(a))
+						{
+							// the SYN of a connect the client cancelled was still queued here: the accept completes, but nobody is
+							// at the other end any more and nothing of it may reach the client's next connection
+							R.tr(fmt("accepted a=%d a cancelled attempt of client %d", a, who));
+							sd->my_key = next_key++; sd->peer_key = 0; sd->up = true;
+							A2.accepted.push_back(sd);
+							start_io(R, sd);
+							return;
+						}
 						int const cnode = R.cspec[who].node;
 						boost::system::error_code e3; tcp::endpoint cle = C.side->s->local_endpoint(e3);
 						address vis = cle.address();
@@ -332,16 +343,27 @@ std::string run_world(Case const& c, Ctx& ctx, bool strip_nat, std::vector<std::
 					// a client can only dial a family its node has an address of
 					bool famok = false; for (auto const& ad : w.topo.addrs_of(cnode)) if (ad.is_v6() == target.address().is_v6()) famok = true;
 					if (!famok) { ++ctx.guards_skipped; return; }
+					// after a cancelled attempt the socket is not pointed at the same endpoint again: the queued SYN of the abandoned
+					// attempt and the new one would come from the same port and could not be told apart by the observer
+					{ bool again = false; for (int a2 : C.abandoned) if (R.aspec[a2].present && acc_endpoint(R, a2) == target) again = true; if (again) { ++ctx.guards_skipped; return; } }
 					C.called = true; C.connecting = true; C.t_call = now_ns(); C.dialled = target; C.pos_call = w.events.size();
 					C.expect_listener = false; C.target_acc = -1;
 					for (int a = 0; a < MAXA; ++a) if (R.aspec[a].present && R.acc[a].open && R.acc[a].listening && R.acc[a].ep == target) { C.expect_listener = true; C.target_acc = a; C.target_gen = R.acc[a].listen_gen; }
 					(void)tacc;
 					C.side->my_key = next_key++;
 					int const ci = int(x);
+					int const attempt = ++C.attempt;
 					R.in_call = true;
-					C.side->s->async_connect(target, [&R, ci](boost::system::error_code const& e) {
+					C.side->s->async_connect(target, [&R, ci, attempt](boost::system::error_code const& e) {
 						if (R.in_call) R.fail("a connect handler ran inside the initiating call");
 						Run::Cli& C2 = R.cli[ci];
+						if (C2.attempt != attempt)
+						{
+							// the attempt was cancelled (op 9): it must have been aborted, never completed
+							if (e != sa::error::operation_aborted) R.fail(fmt("client %d: a cancelled connect completed with %d instead of operation_aborted", ci, ec_code(e)));
+							R.tr(fmt("connect c=%d cancelled ec=%d", ci, ec_code(e)));
+							return;
+						}
 						if (C2.side->closed) return;
 						C2.connecting = false; C2.result = ec_code(e); C2.t_done = now_ns();
 						R.tr(fmt("connect c=%d ec=%d", ci, C2.result));
@@ -409,6 +431,17 @@ std::string run_world(Case const& c, Ctx& ctx, bool strip_nat, std::vector<std::
 					R.tr(fmt("udp_tx from=%d to=%d ec=%d", from, to, ec_code(ec)));
 					break;
 				}
+				case 9: // cancel a client's pending connect; the client may then dial somewhere else (op 2) with the same socket
+				{
+					if (x < 0 || x >= MAXC || !R.cspec[x].present || !R.cli[x].called || !R.cli[x].connecting || R.cli[x].side->closed) { ++ctx.guards_skipped; return; }
+					Run::Cli& C = R.cli[x];
+					R.in_call = true; C.side->s->cancel(ec); R.in_call = false;
+					if (C.target_acc >= 0) C.abandoned.insert(C.target_acc);
+					++C.attempt; C.connecting = false; C.called = false; C.expect_listener = false; C.target_acc = -1;
+					R.saw_cancel_reconnect = true;
+					R.tr(fmt("cancel_connect c=%lld", x));
+					break;
+				}
 				case 7: // (re-)open and bind an acceptor without listening: connects to it must be refused
 				{
 					if (x < 0 || x >= MAXA || !R.aspec[x].present || R.acc[x].open) { ++ctx.guards_skipped; return; }
@@ -464,7 +497,9 @@ std::string run_world(Case const& c, Ctx& ctx, bool strip_nat, std::vector<std::
 		if (!inconclusive && R.err.empty())
 		{
 			// pairing order: accepts of acceptor a in listen generation g are a prefix of the SYN arrivals of that generation
-			for (int a = 0; a < MAXA && R.err.empty(); ++a)
+			// (not compared in runs where a connect was cancelled: an abandoned attempt's SYN and the same socket's next one
+			// carry the same port, and the observer cannot attribute accepts to them reliably)
+			for (int a = 0; a < MAXA && R.err.empty() && !R.saw_cancel_reconnect; ++a)
 			{
 				if (!R.aspec[a].present) continue;
 				Run::Acc& A = R.acc[a];
@@ -477,7 +512,7 @@ std::string run_world(Case const& c, Ctx& ctx, bool strip_nat, std::vector<std::
 						TapEvent const& e = w.events[ei];
 						TapInfo const& ti = w.taps[std::size_t(e.tap)];
 						if (e.type != 1 || e.kind != 0 || ti.role != 3 || ti.node != R.aspec[a].node) continue;
-						for (int i = 0; i < MAXC; ++i) if (R.cli[i].called && R.cli[i].local_port == e.from.port() && R.cli[i].target_acc == a && R.cli[i].target_gen == g && R.cli[i].dialled.address() == w.topo.addrs_of(ti.node)[std::size_t(ti.addr)]) arrivals.push_back(e.from.port());
+						for (int i = 0; i < MAXC; ++i) if (R.cli[i].local_port == e.from.port() && ((R.cli[i].called && R.cli[i].target_acc == a && R.cli[i].target_gen == g && R.cli[i].dialled.address() == w.topo.addrs_of(ti.node)[std::size_t(ti.addr)]) || R.cli[i].abandoned.count(a))) arrivals.push_back(e.from.port()); // (the SYN of a connect that was cancelled later arrived and queues like any other)
 					}
 					std::vector<int> accepts;
 					for (auto const& p : A.accept_order) if (p.first == g) accepts.push_back(p.second);
@@ -530,6 +565,7 @@ std::string run_world(Case const& c, Ctx& ctx, bool strip_nat, std::vector<std::
 	if (R.saw_v6_beside_nat) sum.labels["ipv6_connection_from_a_node_whose_ipv4_is_natted"] = 1;
 	if (R.saw_bound_not_listening) sum.labels["acceptor_bound_but_not_listening"] = 1;
 	if (R.saw_double_nat_udp) sum.labels["udp_through_two_nats"] = 1;
+	if (R.saw_cancel_reconnect) sum.labels["connect_cancelled_then_socket_reused"] = 1;
 	sum.nontrivial07 = R.saw_two_queued || R.saw_nat || R.saw_refusal || R.saw_overload2;
 	sum.nontrivial13 = any_nat && (R.saw_nat_synack || R.saw_shared_ext) && R.saw_nat;
 	return err;
@@ -573,6 +609,9 @@ rc::Gen<Case> gen_case(bool c13, int maxops)
 		rc::gen::map(kit::range(0, 5), [](long long c) { return std::vector<Rec>{mk("op", {3, c, 0, 0})}; }),
 		rc::gen::map(rc::gen::pair(kit::range(0, 2), kit::range(0, 1)), [](std::pair<long long, long long> p) { return std::vector<Rec>{mk("op", {4, p.first, p.second, 0}), mk("adv", {100}), mk("op", {0, p.first, 0, 0})}; }),
 		rc::gen::map(kit::range(0, 2), [](long long a) { return std::vector<Rec>{mk("op", {5, a, 0, 0})}; }),
+		rc::gen::map(rc::gen::tuple(kit::range(0, 5), kit::range(0, 2), kit::range(1, 2), kit::weighted({{2, 1}, {2, 30000}, {1, 90000}}), kit::range(0, 2)), [](std::tuple<long long, long long, long long, long long, long long> t) {
+			long long const c = std::get<0>(t), a = std::get<1>(t), b = (a + std::get<2>(t)) % 3;
+			return std::vector<Rec>{mk("op", {2, c, a, 0}), mk("adv", {std::get<3>(t)}), mk("op", {9, c, 0, 0}), mk("op", {2, c, b, 0}), mk("adv", {120000}), mk("op", {1, a, std::get<4>(t), 0}), mk("adv", {120000}), mk("op", {1, b, std::get<4>(t), 1})}; }),
 		rc::gen::map(rc::gen::tuple(kit::range(0, 2), kit::range(0, 5), kit::range(0, 2)), [](std::tuple<long long, long long, long long> t) {
 			long long const a = std::get<0>(t);
 			return std::vector<Rec>{mk("op", {4, a, 1, 0}), mk("adv", {100}), mk("op", {7, a, 0, 0}), mk("adv", {1000}), mk("op", {2, std::get<1>(t), a, 0}), mk("adv", {90000}), mk("op", {8, a, 0, 0}), mk("op", {1, a, std::get<2>(t), 0})}; }),
